@@ -17,7 +17,6 @@ import (
 	"strings"
 
 	"github.com/kardiachain/go-kardia/lib/common"
-	krlp "github.com/kardiachain/go-kardia/lib/rlp"
 	"github.com/kardiachain/go-kardia/types"
 )
 
@@ -29,7 +28,8 @@ type chainHdrCase struct {
 	input            []byte
 	control          bool // the canonical encoding itself
 	elem             reflect.Type
-	noReencode       bool // legacy storage format: decoding migrates it, re-encoding legitimately differs
+	noReencode       bool   // legacy storage format: decoding migrates it, re-encoding legitimately differs
+	broken           string // the encoder did not produce a canonical list for the instance: reported, nothing to mutate
 }
 
 func canonHeader(n int, list bool) []byte {
@@ -58,9 +58,9 @@ func chainHeaderCases() []chainHdrCase {
 	}
 	var insts []inst
 	add := func(family, name string, v interface{}, elem interface{}, noRe bool) {
-		enc, err := krlp.EncodeToBytes(v)
-		if err != nil {
-			panic(fmt.Sprintf("chainhdr: cannot encode %s/%s: %v", family, name, err))
+		enc, err, pan := encK(v)
+		if err != nil || pan != "" {
+			enc = nil // reported as a broken instance below
 		}
 		insts = append(insts, inst{family, name, enc, reflect.TypeOf(elem), noRe})
 	}
@@ -99,7 +99,9 @@ func chainHeaderCases() []chainHdrCase {
 	for _, in := range insts {
 		it, reason := canonical(in.enc)
 		if reason != "" || !it.list {
-			panic("chainhdr: instance encoding is not a canonical list: " + in.family + "/" + in.name)
+			out = append(out, chainHdrCase{family: in.family, instance: in.name, elem: in.elem, input: in.enc,
+				broken: fmt.Sprintf("the encoding %s of the instance is not a canonical RLP list (%s)", trunc(hx(in.enc), 80), reason)})
+			continue
 		}
 		emit := func(target, form string, mutated []byte) {
 			control := bytes.Equal(mutated, in.enc)
@@ -107,7 +109,7 @@ func chainHeaderCases() []chainHdrCase {
 				name string
 				b    []byte
 			}{{"alone", mutated}, {"in-list", listWrap(mutated)}, {"after-sibling", listWrap(in.enc, mutated)}} {
-				out = append(out, chainHdrCase{in.family, in.name, target, form, h.name, h.b, control, in.elem, in.noReencode})
+				out = append(out, chainHdrCase{family: in.family, instance: in.name, target: target, form: form, host: h.name, input: h.b, control: control, elem: in.elem, noReencode: in.noReencode})
 			}
 		}
 		// outer header
@@ -141,6 +143,10 @@ func chainHeaderCases() []chainHdrCase {
 func evalChainHeaderCase(c chainHdrCase, idx int, cx *ctx) {
 	st := cx.st
 	st.add("evaluations", 1)
+	if c.broken != "" {
+		cx.col.add(sigOf(c.family, "instance-encoding", "encoder-emits-noncanonical"), c.family+"/"+c.instance+": "+c.broken, replayCase{Part: "chainhdr", Type: c.family, Index: idx})
+		return
+	}
 	st.add("chain_header_mutation_cases", 1)
 	rc := replayCase{Part: "chainhdr", Type: c.family, Input: trunc(hx(c.input), 200), Index: idx}
 	_, reason := canonical(c.input)
